@@ -21,13 +21,30 @@ import (
 //	empty-meta-flush   a metadata flush that has nothing to write happens before a NEW metric is written; then the
 //	                   engine is reopened; histories: metric X: write, flush, flush; metric Y: write, {reopen, flush+reopen}
 
-func runSpecials(w *world, rep *vevid.Report) {
-	sameTick(w, rep)
-	emptyMetaFlush(w, rep)
-	partialFields(w, rep)
-	unalignedFamilies(w, rep)
-	missingGroupTag(w, rep)
-	threeSeries(w, rep)
+// threeSeriesP1: the first-level choice of threeSeries a worker runs (-1: all of them); the set is the largest one and
+// is spread over eight workers.
+var threeSeriesP1 = -1
+
+func threeSeriesSlice(p1 int) func(w *world, rep *vevid.Report) {
+	return func(w *world, rep *vevid.Report) {
+		threeSeriesP1 = p1
+		threeSeries(w, rep)
+		threeSeriesP1 = -1
+	}
+}
+
+var specials = []func(w *world, rep *vevid.Report){sameTick, emptyMetaFlush, partialFields, unalignedFamilies, missingGroupTag, compressedWindow,
+	threeSeriesSlice(0), threeSeriesSlice(1), threeSeriesSlice(2), threeSeriesSlice(3), threeSeriesSlice(4), threeSeriesSlice(5), threeSeriesSlice(6), threeSeriesSlice(7)}
+
+// runSpecials runs the scripted sets of worker `shard` of `shards` (set i belongs to worker i mod shards); shards <= 1: all.
+func runSpecials(w *world, rep *vevid.Report, shard, shards int) {
+	for i, f := range specials {
+		if shards <= 1 || i%shards == shard {
+			t0 := time.Now()
+			f(w, rep)
+			rep.Extra[fmt.Sprintf("max_special_%d_ms", i)] = time.Since(t0).Milliseconds()
+		}
+	}
 }
 
 // threeSeries: three series (host=a,b,c; series ids in this order) and tag conditions that select two of them. The
@@ -81,6 +98,9 @@ func threeSeries(w *world, rep *vevid.Report) {
 		{"(host in ('a','b') and host!='b') or (host in ('a','b') and host!='a')", [3]bool{true, true, false}},
 	}
 	for p1 := 0; p1 < 8; p1++ { // bit i: the first write of series i goes into the next family
+		if threeSeriesP1 >= 0 && p1 != threeSeriesP1 {
+			continue
+		}
 		for _, mid := range []string{"", "F", "R"} {
 			for p2 := 0; p2 < 8; p2++ { // bit i: series i is written again into the queried family
 				for _, end := range []string{"", "F"} {
@@ -338,6 +358,66 @@ func unalignedFamilies(w *world, rep *vevid.Report) {
 				m.flush()
 			}
 			specialEvalMenu(w, rep, "unaligned-range-families", "unaligned-families/"+after, strings.Join(names, " ")+" "+after, m, metric, menu)
+		}
+	}
+}
+
+// compressedWindow: one series whose slots leave the 15-slot write window of the memory database (a later slot moves
+// the window on; the slots behind it go to the series' compressed block, which is decoded sequentially from its first
+// slot), queried over ranges that start before, at and behind the first compressed slot. Exhaustive over the non-empty
+// subsets of seven slots (s0-1, s0, s0+1, s0+2 | s0+15, s0+17 | s0+31) written in time order and, for >= 2 slots, with
+// the earliest slot written last (out of order) x {memory, flushed} x five ranges x intervals {storage, 1m}.
+func compressedWindow(w *world, rep *vevid.Report) {
+	slots := []int64{s0 - 1, s0, s0 + 1, s0 + 2, s0 + 15, s0 + 17, s0 + 31}
+	multi, _, _ := selectLists()
+	var menu []Query
+	for r := windowRanges; r < windowRanges+5; r++ {
+		for _, iv := range []int{0, 2} {
+			menu = append(menu, Query{Sels: multi[0], Range: r, Ivl: iv, GB: true})
+		}
+	}
+	for mask := 1; mask < 1<<len(slots); mask++ {
+		var sel []int64
+		for i, sl := range slots {
+			if mask&(1<<i) != 0 {
+				sel = append(sel, sl)
+			}
+		}
+		orders := [][]int64{sel}
+		if len(sel) >= 2 {
+			orders = append(orders, append(append([]int64(nil), sel[1:]...), sel[0]))
+		}
+		for oi, order := range orders {
+			for _, after := range []string{"", "F"} {
+				if w.timeouts >= 3 {
+					return
+				}
+				if err := w.box.Flush(shardID, w.bothFamilies()); err != nil {
+					vevid.OpFailed("special flush: %v", err)
+				}
+				w.flushedSinceOpen = true
+				w.seq++
+				metric := fmt.Sprintf("%scw%d", w.prefix, w.seq)
+				m := newModel()
+				var names []string
+				for k, sl := range order {
+					w.newTick()
+					v := writeValues[k%len(writeValues)]
+					if err := w.writePoint(metric, "a", sl*slotMs, v, 0); err != nil {
+						vevid.OpFailed("special write: %v", err)
+					}
+					w.lastCreate = fasttime.UnixNano()
+					m.write("a", sl*slotMs, v)
+					names = append(names, fmt.Sprintf("a@%d", sl))
+				}
+				if after == "F" {
+					if err := w.box.Flush(shardID, w.bothFamilies()); err != nil {
+						vevid.OpFailed("special flush: %v", err)
+					}
+					m.flush()
+				}
+				specialEvalMenu(w, rep, "compressed-window", fmt.Sprintf("compressed-window/%d%s", oi, after), strings.Join(names, " ")+" "+after, m, metric, menu)
+			}
 		}
 	}
 }
